@@ -62,7 +62,12 @@ MANIFEST = dict(
          'tokens up to length 4 (5) x 16 option vectors (+ one length deeper for 1 (2) vectors) through IterTokenizer, every text over '
          '13 symbols up to length 3 (4), error texts of every Token member x value x file name x line; '
          'structured random token streams and texts. The implementation alone is checked for chunked == unchunked on all cut sets, '
-         'foreign exceptions, EOF for ever, the read bound, and delivery = plain stream under peeks and push-backs.',
+         'foreign exceptions, EOF for ever, the read bound, and delivery = plain stream under peeks and push-backs. '
+         'Round 5: "any combination of options" includes options set through the public attributes after construction: '
+         'correspondence options_by_attribute (constructor form vs every option inverted at construction and set by setattr) and the '
+         'obligation tokenizer_options_are_read_from_the_public_attribute_at_call_time (option census of __init__ and the class body); '
+         'the state census is read even when the tree executor fails closed (translate:get_token_trees), so its obligations name the '
+         'foreign state of exactly the code the executor could not follow.',
     note='Trusted: Coq kernel + vm_compute (incl. primitive Uint63 for checksums), the translators (c02_tables, c03_kvparse, '
          'c03_basetok, c03_errfmt, c02_hstring, c02_gettoken, c03_nextchar: the abstract executors are fail-closed outside their statement '
          'languages; a wrong tree they produced would have to coincide with the model\'s function AND escape the exhaustive differential '
@@ -1762,6 +1767,8 @@ def _run(ck: Ck) -> None:
         _stage(ck, 'corr_exhaustive')
         corr_random(ck, escalate)
         _stage(ck, 'corr_random')
+        U.corr_options_by_attribute(ck)
+        _stage(ck, 'corr_options_by_attribute')
         corr_kvparse(ck, escalate)
         _stage(ck, 'corr_kvparse')
         corr_basetok(ck, escalate)
